@@ -1,33 +1,41 @@
 // Scheduled correspondence harness for ccontainer.CContainer (C15).
 //
 // Config:  [eqcode v0]   eqcode 0 no custom equality, 1 equal mod 2, 2 always equal, 3 a <= b, 4 equal div 4,
-//                        5 never equal and 6 a < b (comparators that are NOT REFLEXIVE: the library's compare still
-//                        treats identical values as equal), 7 a container built with ccontainer.NewCContainerVT over
-//                        *msg (EqualVT compares an id; the numbers of the history are the ids, 0 = nil; every value
-//                        handed to the container is freshly allocated, so equal but not identical pointers occur).
-//                        Both element types are driven through the same adapter (cell), so the event interpreter
-//                        below is the same for both.
-// Events:  [1] GetValue   [2 v] SetValue(v)   [3 f k] SwapValue(cb) cb: 0 nil, 1 +k, 2 const k, 3 identity
-//          [4 kind x y hc] waiter: kind 0 WaitValue, 1 WaitValueChange(old=x), 2 WaitValueEmpty,
-//                          3 WaitValueWithValidator(family x, parameter y);
-//                          hc = e + 2*f + 6*p: e=1 with an error channel; f the flavour of its context (hctx): 0 plain
-//                          WithCancel, 1 ends like a deadline (Err() == context.DeadlineExceeded), 2 cancelled with a
-//                          cause (Err() == context.Canceled, Cause == hctx.ErrCause); p=1 the context has already
-//                          ended when the call is made
-//          (each of the above runs in a new actor, which parks at the HoldLock entry gate)
-//          [5 i] actor i continues from the gate it is parked at
-//          [6 i] the context of waiter i ends (as its flavour says)      [7 i m] error channel of waiter i: 0 send nil, 1 send error, 2 close
-//          [8 init hc] ccontainer.WatchChanges(ctx, init, ccontainer.ToWatchable(ctr), cb, errCh) in a new actor ("watcher";
-//                          events 5, 6, 7 apply to it as to a waiter, 6 and 7 also while it is inside its callback; hc
-//                          as in event 4).  The
-//                          callback is harness-owned: it parks and returns what event 9 prescribes.
-//          [9 i r] the callback of watcher i returns: 0 nil, 1 an error
+//
+//	5 never equal and 6 a < b (comparators that are NOT REFLEXIVE: the library's compare still
+//	treats identical values as equal), 7 a container built with ccontainer.NewCContainerVT over
+//	*msg (EqualVT compares an id; the numbers of the history are the ids, 0 = nil; every value
+//	handed to the container is freshly allocated, so equal but not identical pointers occur).
+//	Both element types are driven through the same adapter (cell), so the event interpreter
+//	below is the same for both.
+//
+// Events:  [1] GetValue (every third event 1 is instead a SwapValue whose callback panics and whose caller recovers: the
+//
+//	    cell must be unchanged and unlocked afterwards, and the value handed to the callback is the value read)
+//	[2 v] SetValue(v)   [3 f k] SwapValue(cb) cb: 0 nil, 1 +k, 2 const k, 3 identity
+//	[4 kind x y hc] waiter: kind 0 WaitValue, 1 WaitValueChange(old=x), 2 WaitValueEmpty,
+//	                3 WaitValueWithValidator(family x, parameter y; every second validator also calls
+//	                  GetValue on the same container, which a callback run outside the lock may do);
+//	                hc = e + 2*f + 6*p: e=1 with an error channel; f the flavour of its context (hctx): 0 plain
+//	                WithCancel, 1 ends like a deadline (Err() == context.DeadlineExceeded), 2 cancelled with a
+//	                cause (Err() == context.Canceled, Cause == hctx.ErrCause); p=1 the context has already
+//	                ended when the call is made
+//	(each of the above runs in a new actor, which parks at the HoldLock entry gate)
+//	[5 i] actor i continues from the gate it is parked at
+//	[6 i] the context of waiter i ends (as its flavour says)      [7 i m] error channel of waiter i: 0 send nil, 1 send error, 2 close
+//	[8 init hc] ccontainer.WatchChanges(ctx, init, ccontainer.ToWatchable(ctr), cb, errCh) in a new actor ("watcher";
+//	                events 5, 6, 7 apply to it as to a waiter, 6 and 7 also while it is inside its callback; hc
+//	                as in event 4).  The
+//	                callback is harness-owned: it parks and returns what event 9 prescribes.
+//	[9 i r] the callback of watcher i returns: 0 nil, 1 an error
+//
 // Observation after every event: one number per actor, status + 16*value
-//          1 at a HoldLock entry gate, 7 at the exit gate of the sampling section (waiters only), 2 blocked in select,
-//          3 returned ok, 4 returned context.Canceled, 5 returned the error channel's error, 6 returned the validator's
-//          error, 8 returned some other error, 9 panicked, 10 inside the WatchChanges callback (value = its argument),
-//          11 WatchChanges returned the callback's error, 12 WatchChanges returned nil,
-//          13 returned context.DeadlineExceeded, 14 returned hctx.ErrCause (the cancellation cause)
+//
+//	1 at a HoldLock entry gate, 7 at the exit gate of the sampling section (waiters only), 2 blocked in select,
+//	3 returned ok, 4 returned context.Canceled, 5 returned the error channel's error, 6 returned the validator's
+//	error, 8 returned some other error, 9 panicked, 10 inside the WatchChanges callback (value = its argument),
+//	11 WatchChanges returned the callback's error, 12 WatchChanges returned nil,
+//	13 returned context.DeadlineExceeded, 14 returned hctx.ErrCause (the cancellation cause)
 //
 // Go's select picks at random among ready cases, so the harness never lets two cases of one waiter be ready:
 // a waiter parks at the exit gate only if neither its context is cancelled nor its error channel has something
@@ -171,6 +179,8 @@ type sys struct {
 	cfg  []uint64
 	prof int  // generation profile: 0 mixed, 1 waiter-heavy, 2 writer-heavy
 	down bool // teardown: callbacks return an error so that every watcher ends
+	nget int  // event-1 calls so far: every third one is a SwapValue whose callback panics (an atomic read)
+	nval int  // validator waiters so far: every second validator calls GetValue on the same container
 }
 
 // cumulative weights (out of 100) of: get, set, swap, wait, step, cancel; the rest is error-channel events
@@ -362,8 +372,19 @@ func (s *sys) exec(ev []uint64) (obs []uint64, ok bool) {
 		a := s.c.NewActor(kGet)
 		d := &adata{}
 		a.Data = d
+		s.nget++
+		panicking := s.nget%3 == 0
 		s.c.Go(a, func(a *ctl.Actor) {
-			d.val = s.ctr.GetValue()
+			if panicking {
+				// SwapValue whose callback panics, recovered by the caller: the cell is unchanged and the call is an
+				// atomic read of the value handed to the callback; later operations must not find the cell locked.
+				func() {
+					defer func() { _ = recover() }()
+					s.ctr.SwapValue(func(p uint64) uint64 { d.val = p; panic("harness: SwapValue callback panics") })
+				}()
+			} else {
+				d.val = s.ctr.GetValue()
+			}
 			a.Res = 3
 		})
 		synctest.Wait()
@@ -401,6 +422,10 @@ func (s *sys) exec(ev []uint64) (obs []uint64, ok bool) {
 		}
 		kind, x, y := ev[1], ev[2], ev[3]
 		ctx, d, errCh := newCtx(ev[4])
+		if kind == 3 {
+			s.nval++
+		}
+		reentrant := s.nval%2 == 0
 		a := s.c.NewActor(kWait)
 		a.Data = d
 		s.c.Go(a, func(a *ctl.Actor) {
@@ -414,7 +439,18 @@ func (s *sys) exec(ev []uint64) (obs []uint64, ok bool) {
 			case 2:
 				err = s.ctr.WaitValueEmpty(ctx, errCh)
 			default:
-				v, err = s.ctr.WaitValueWithValidator(ctx, validatorOf(x, y), errCh)
+				vf := validatorOf(x, y)
+				if vf != nil && reentrant {
+					// the validator is a user callback run outside the lock: it may use the same container
+					inner := vf
+					vf = func(v uint64) (bool, error) {
+						s.c.EnterNoPark()
+						_ = s.ctr.GetValue()
+						s.c.LeaveNoPark()
+						return inner(v)
+					}
+				}
+				v, err = s.ctr.WaitValueWithValidator(ctx, vf, errCh)
 			}
 			d.val = v
 			a.Res = classify(err)
